@@ -196,7 +196,8 @@ Definition create (s : afs) (h : handle) (n : name) (k : kind) (content : bytes)
     if bool_decide (is_Some (o_ents d !! n)) then (s, RStatus ERR) else
     if p_wtmax P <? lenN content then (s, RStatus ERR) else
     match hi with
-    | HNone | HNoSpace => (s, RStatus ERR)            (* resource failure: no effect *)
+    | HNoSpace => (s, RStatus ERR)                    (* resource failure: no effect (plausibility: Agree.need) *)
+    | HNone => (s, RStatus OK)                        (* the call must succeed: no error reply can agree *)
     | HHandle hh =>
       match parse_handle hh with
       | Some (i, g) =>
@@ -296,7 +297,9 @@ Definition do_write (s : afs) (h : handle) (off cnt : N) (st : stable) (d : byte
     match hi with
     | HNoSpace => (s, RStatus ERR)
     | _ =>
-      let o' := with_content o (N.max (o_size o) (off + cnt)) (write_bytes (o_data o) off d) in
+      (* a zero-length write changes nothing (in particular it does not extend the file) *)
+      let o' := if cnt =? 0 then o else
+                with_content o (N.max (o_size o) (off + cnt)) (write_bytes (o_data o) off d) in
       let committed := if unstable_opt s then st else FileSync in
       (set_obj s i o', RWritten cnt committed (attrs_of i o'))
     end
